@@ -103,7 +103,8 @@ func stamp() string {
 			return nil
 		})
 	}
-	for _, extra := range []string{SubjectInventoryFile(), UserRulesFile(), UserCommentRulesFile(), filepath.Join(VerifRoot(), "corpus", "synth", "index.json")} {
+	for _, extra := range []string{SubjectInventoryFile(), UserRulesFile(), UserCommentRulesFile(), filepath.Join(VerifRoot(), "corpus", "synth", "index.json"),
+		filepath.Join(VerifRoot(), "harness", "walkrec", "main.go.txt")} {
 		if b, err := os.ReadFile(extra); err == nil {
 			h.Write(b)
 		}
@@ -338,12 +339,12 @@ func compute(tier string, seed int64, dir string) *Shared {
 				if v.Tag == "" {
 					run.Outcomes[name] = ModelObs{Panic: true}
 				}
-				if name == "truncateCmp" && v.Tag == "skipArchDependent=false" {
-					run.Outcomes["truncateCmp/noskip"] = ModelObs{Panic: true}
+				if mv := ModelledVariant(name, v.Tag); mv != "" {
+					run.Outcomes[mv] = ModelObs{Panic: true}
 				}
 				continue
 			}
-			if v.Tag == "" || (name == "truncateCmp" && v.Tag == "skipArchDependent=false") {
+			if v.Tag == "" || ModelledVariant(name, v.Tag) != "" {
 				mo := ModelObs{Offs: []int{}}
 				for _, d := range out.Diags {
 					off := -1
@@ -355,7 +356,7 @@ func compute(tier string, seed int64, dir string) *Shared {
 				if v.Tag == "" {
 					run.Outcomes[name] = mo
 				} else {
-					run.Outcomes["truncateCmp/noskip"] = mo
+					run.Outcomes[ModelledVariant(name, v.Tag)] = mo
 				}
 			}
 			for _, d := range out.Diags {
@@ -363,7 +364,11 @@ func compute(tier string, seed int64, dir string) *Shared {
 				s.Fired[name]++
 				s.DiagShapes[name+"|"+shapeOf(d.Text)] = true
 				for _, f7 := range CheckC07(fr.file, st, d) {
-					s.fail("C07", "C07/"+name+"/"+f7.Class, fmt.Sprintf("%s on %s/%s: %s", v, fr.pkg.Name, fr.file.Name, f7.What),
+					keyName := name
+					if f7.Class == "text-invalid-utf8" && v.Info.EmbeddedRuleguard {
+						keyName = "ruleguard-engine" // one defect of the engine's message truncation, whichever rule group exhibits it
+					}
+					s.fail("C07", "C07/"+keyName+"/"+f7.Class, fmt.Sprintf("%s on %s/%s: %s", v, fr.pkg.Name, fr.file.Name, f7.What),
 						map[string]interface{}{"package": fr.pkg.Name, "file": fr.file.Name, "checker": v.String(), "position": posStr(d.Pos),
 							"text": d.Text, "line": sourceLine(fr.file, d), "origin": fr.pkg.Origin})
 				}
@@ -427,10 +432,25 @@ func compute(tier string, seed int64, dir string) *Shared {
 			}
 			sort.Ints(want)
 			sort.Ints(got)
-			if fmt.Sprint(want) != fmt.Sprint(got) {
+			differs := fmt.Sprint(want) != fmt.Sprint(got)
+			if fr.pkg.InsWhat != "" {
+				// inserted material other than blanks: C07 only asks that no diagnostic lands ON the inserted text
+				// (appearing / disappearing diagnostics are the locality property's business)
+				differs = false
+				for _, o := range got {
+					if o == -1 {
+						differs = true
+					}
+				}
+			}
+			if differs {
 				name := variants[i].Info.Name
-				s.fail("C07", "C07/"+name+"/layout-dependent-position",
-					fmt.Sprintf("%s: inserting blanks between tokens of %s moves/changes its diagnostics: offsets %v on the original, %v (mapped back) on the perturbed file", name, fr.pkg.BaseKey, want, got),
+				class, what := "layout-dependent-position", "blanks between tokens"
+				if fr.pkg.InsWhat != "" {
+					class, what = "context-dependent-position", fr.pkg.InsWhat
+				}
+				s.fail("C07", "C07/"+name+"/"+class,
+					fmt.Sprintf("%s: inserting %s of %s moves/changes its diagnostics: offsets %v on the original, %v (mapped back) on the perturbed file", name, what, fr.pkg.BaseKey, want, got),
 					map[string]interface{}{"package": fr.pkg.Name, "file": fr.file.Name, "checker": name, "origin": fr.pkg.Origin,
 						"original_offsets": want, "perturbed_offsets_mapped": got, "perturbed_source": clip(string(fr.file.Src), 4000)})
 			}
